@@ -465,12 +465,25 @@ func (root *Root) replaceArgVars(vars map[string]interface{}, v interface{}, at 
 		}
 	case []interface{}:
 		var mt Type
-		if lt, _ := at.(*List); lt != nil {
+		lt, _ := at.(*List)
+		if nn, _ := at.(*NonNull); nn != nil {
+			lt, _ = nn.Base.(*List)
+		}
+		if lt != nil {
 			mt = lt.Base
 		}
 		for i, v := range tv {
 			tv[i], ea2 = root.replaceArgVars(vars, v, mt)
 			ea = append(ea, ea2...)
+		}
+		if lt == nil {
+			// Not a list type, the members have not been checked and it
+			// is up to the declared type to accept or refuse a list.
+			if ic, _ := at.(InCoercer); ic != nil {
+				if val, err = ic.CoerceIn(val); err != nil {
+					ea = append(ea, resWarnp(nil, "%s", err))
+				}
+			}
 		}
 	case Symbol:
 		bt := BaseType(at)
